@@ -389,6 +389,30 @@ fn algorithm_configs() -> Vec<Config> {
     out
 }
 
+/// Configurations over paths that differ from the patterns and prefixes of the rule alphabet only
+/// in a way a sloppy matcher would miss: a leading dot (`*` and `d/*` match it), another case
+/// (`a` does not match `A`), a path that shares characters but not a component with the IN prefix
+/// `d` (`da`, `dd/a`), and the prefix directory itself as an artifact (`d`).
+fn odd_path_configs() -> Vec<Config> {
+    let mk = |v: &[(&str, u8)]| -> Arts { v.iter().map(|(p, d)| (p.to_string(), *d)).collect() };
+    let odd = [".h", "d/.h", "A", "da", "dd/a", "d"];
+    let other_full = Some((mk(&[("a", 1), (".h", 1), ("A", 1), ("da", 1), ("e/a", 1), ("e/.h", 1)]), mk(&[("a", 2), (".h", 2), ("A", 2), ("da", 2), ("d", 2), ("h", 2), ("e/a", 2), ("e/.h", 2), ("e/da", 2)])));
+    let mut out = vec![];
+    for o in [None, other_full.clone()] {
+        for p in odd {
+            out.push(Config { materials: mk(&[]), products: mk(&[(p, 2)]), other: o.clone() });
+            out.push(Config { materials: mk(&[(p, 1)]), products: mk(&[(p, 1)]), other: o.clone() });
+            out.push(Config { materials: mk(&[(p, 1)]), products: mk(&[]), other: o.clone() });
+            // next to the plain path it resembles
+            out.push(Config { materials: mk(&[("a", 1), ("d/a", 1)]), products: mk(&[(p, 2), ("a", 2), ("d/a", 2)]), other: o.clone() });
+        }
+        let all: Vec<(&str, u8)> = odd.iter().map(|p| (*p, 2u8)).chain([("a", 2u8), ("d/a", 2u8)]).collect();
+        out.push(Config { materials: mk(&[]), products: mk(&all), other: o.clone() });
+        out.push(Config { materials: mk(&all), products: mk(&[]), other: o.clone() });
+    }
+    out
+}
+
 pub struct Engine {
     links: HashMap<String, LinkMetadata>,
 }
@@ -632,7 +656,7 @@ fn enumerate_side(acc: &mut Acc, cfg: &Config, eng: &Engine, side: Side, kind: I
 
 // --------------------------------------------------- end-to-end binding
 
-fn e2e_verdict(cfg: &Config, mats: &[ArtifactRule], prods: &[ArtifactRule], dir: &std::path::Path) -> Verdict {
+fn e2e_verdict(cfg: &Config, mats: &[ArtifactRule], prods: &[ArtifactRule], dir: &std::path::Path, item_first: bool) -> Verdict {
     for e in std::fs::read_dir(dir).unwrap().flatten() {
         let _ = std::fs::remove_file(e.path());
     }
@@ -646,7 +670,13 @@ fn e2e_verdict(cfg: &Config, mats: &[ArtifactRule], prods: &[ArtifactRule], dir:
         &world::block_text(&world::sign_link(world::link("item", to_lib_arts(&cfg.materials), to_lib_arts(&cfg.products)), &[a])),
     );
     if let Some((om, op)) = &cfg.other {
-        steps.push(world::step("other", 1, &[a]));
+        // the referenced step comes after or before the item, with no rules or with rules that always pass
+        let o = world::step("other", 1, &[a]);
+        if item_first {
+            steps.push(o);
+        } else {
+            steps.insert(0, o.add_expected_product(ArtifactRule::Allow(world::vpath("*"))));
+        }
         world::write(
             dir,
             &world::link_file("other", a),
@@ -668,7 +698,7 @@ pub fn selftest(c: &mut Check) {
     }
     pats.sort();
     pats.dedup();
-    let subjects = ["", "a", "b", "d/a", "e/a", "e/b", "e/d/a", "ab", "d/", "c"];
+    let subjects = ["", "a", "b", "d/a", "e/a", "e/b", "e/d/a", "ab", "d/", "c", ".h", "d/.h", "A", "da", "dd/a", "d", "h", "e/.h", "e/da"];
     let mut bad = String::new();
     for p in &pats {
         for s in subjects {
@@ -712,6 +742,8 @@ pub fn run(tier: Tier) -> i32 {
         .flat_map(|(m, p)| others.iter().map(move |o| Config { materials: m.clone(), products: p.clone(), other: o.clone() }))
         .collect();
     configs.extend(algorithm_configs());
+    let n_odd = odd_path_configs().len();
+    configs.extend(odd_path_configs());
     let bfs_depth = if thorough { 8 } else { 6 };
     // ---- BFS (deduplicated) ----------------------------------------------
     let accs = util::par_fold(&configs, Acc::new, |acc, ci, cfg| {
@@ -783,12 +815,13 @@ pub fn run(tier: Tier) -> i32 {
         || (Acc::new(), util::fresh_dir("c03")),
         |(acc, dir), _i, cfg| {
             let eng = Engine::new(cfg);
-            for r in &alphabet {
+            for (ri, r) in alphabet.iter().enumerate() {
                 for side in [Side::Materials, Side::Products] {
                     let lib = vec![r.to_lib()];
                     let (m, p): (&[ArtifactRule], &[ArtifactRule]) = if side == Side::Materials { (&lib, &[]) } else { (&[], &lib) };
                     let hook = eng.apply(ItemKind::Step, m, p);
-                    let e2e = e2e_verdict(cfg, m, p, dir);
+                    let item_first = (ri + if side == Side::Materials { 0 } else { 1 }) % 2 == 0;
+                    let e2e = e2e_verdict(cfg, m, p, dir, item_first);
                     acc.evaluations += 1;
                     acc.note("e2e_runs");
                     let agree = match (&hook, &e2e) {
@@ -805,6 +838,7 @@ pub fn run(tier: Tier) -> i32 {
                                 j["hook"] = json!(format!("{hook:?}"));
                                 j["e2e"] = e2e.to_json();
                                 j["kind"] = json!("e2e");
+                                j["item_first"] = json!(item_first);
                                 j
                             },
                         );
@@ -817,13 +851,13 @@ pub fn run(tier: Tier) -> i32 {
 
     c.acc = acc;
     c.rule = format!(
-        "state = (artifact configuration, side, remaining queue); {} configurations = 125 item configurations over paths a,b,d/a in {{absent,deleted,created,unchanged,modified}} x {} referenced-step configurations; plus 72 digest-map-shape configurations (sha256 / sha512 / both / none on either side); transition = append one of {} rules; queue observed through DISALLOW probes; non-trivial = configuration with at least one artifact",
+        "state = (artifact configuration, side, remaining queue); {} configurations = 125 item configurations over paths a,b,d/a in {{absent,deleted,created,unchanged,modified}} x {} referenced-step configurations; plus 72 digest-map-shape configurations (sha256 / sha512 / both / none on either side) and {n_odd} configurations over the paths .h, d/.h, A, da, dd/a, d (alone, next to a and d/a, all together; with and without a referenced step that has their twins); transition = append one of {} rules; queue observed through DISALLOW probes; non-trivial = configuration with at least one artifact",
         configs.len(),
         others.len(),
         alphabet.len()
     );
     c.bound_completed = format!(
-        "BFS to depth {bfs_depth} deduplicated on the remaining queue (the queue only shrinks, so the fixpoint is reached); pure enumeration without deduplication of all lists of length 2 ({}) and one rule per side jointly; end-to-end replay of every single rule through in_toto_verify",
+        "BFS to depth {bfs_depth} deduplicated on the remaining queue (the queue only shrinks, so the fixpoint is reached); pure enumeration without deduplication of all lists of length 2 ({}) and one rule per side jointly; end-to-end replay of every single rule through in_toto_verify with the ruled step before / after the referenced step (alternating)",
         if thorough { "all configurations; length 3 on every 25th configuration" } else { "every 5th configuration" }
     );
     c.assume("normalised relative paths and the portable glob subset (self-tested against glob::Pattern)");
@@ -851,7 +885,7 @@ pub fn replay(case: &Value) -> Value {
     if case["kind"] == "e2e" {
         let dir = util::fresh_dir("c03r");
         let (m, p): (&[ArtifactRule], &[ArtifactRule]) = if side == Side::Materials { (&lib, &[]) } else { (&[], &lib) };
-        let e2e = e2e_verdict(&cfg, m, p, &dir);
+        let e2e = e2e_verdict(&cfg, m, p, &dir, case["item_first"].as_bool().unwrap_or(true));
         let agree = matches!((&verdict, &e2e), (Ok(true), Verdict::Ok(_)) | (Ok(false), Verdict::Err(_)));
         return json!({"hook": format!("{verdict:?}"), "e2e": e2e.to_json(), "violation": if agree { Value::Null } else { json!("e2e-binding") }});
     }
